@@ -7,7 +7,7 @@ fn within(reported: usize, retained: usize, components: usize) -> bool {
     (if reported > retained { reported - retained } else { retained - reported }) <= tol
 }
 
-// @h props=C16,C04:t tier=quick family=A mem=6 timeout=1800 role=space.darray
+// @h props=C16,C04:t tier=quick family=A mem=14 timeout=1800 role=space.darray
 // @bound DArray<true> assembled from an empty bit vector and two Inventories whose three buffers have symbolic independent lengths (blocks 0..=32, sub-blocks 0..=128, overflow 0..=64)
 // @funcs DArray::space_usage_byte, Inventories::space_usage_byte, Box<[T]>::space_usage_byte
 #[kani::proof]
